@@ -169,7 +169,7 @@ def crash_violation(scratch, harness, family, summ, hout):
     return None
 
 
-def tlc_gen_replay(scratch, harness, family, spec, cfg, timeout_s, workers=None, jobs=None, extra=(), procs=None, race=False):
+def tlc_gen_replay(scratch, harness, family, spec, cfg, timeout_s, workers=None, jobs=None, extra=(), procs=None, race=False, subst=None):
     """spec -> code: TLC prints behaviours, the harness replays them. Returns (tlcinfo, summary)."""
     sd = prepare_spec_dir(scratch)
     meta = tempfile.mkdtemp(prefix="meta_", dir=scratch)
@@ -183,6 +183,8 @@ def tlc_gen_replay(scratch, harness, family, spec, cfg, timeout_s, workers=None,
     henv = dict(os.environ)
     if os.path.isdir("/dev/shm") and os.access("/dev/shm", os.W_OK):
         henv["TMPDIR"] = "/dev/shm"      # the harness's temporary files (file readers/writers): tmpfs is 3x faster
+    if subst:
+        henv["MXJ_SUBST"] = subst
     racelog = os.path.join(scratch, tag + ".race")
     if race:
         # collect race reports without aborting the replay; they are turned into violations below
@@ -621,7 +623,7 @@ class Ctx:
 
     def _wrapped_repo_run(self, timeout_s=900):
         """the repository's own test suite in a scratch copy of the working tree whose methods WRAPPED have been renamed
-        mechanically, with logging wrappers of the original names (harness/repotrace/zz_verif_wrap_test.go.txt) in their place:
+        mechanically, with logging wrappers of the original names (harness/repotrace/zz_verif_wrap.go.txt) in their place:
         no hook in the repository is needed.  Returns (raw log, go test rc); run once per check process."""
         if getattr(self, "_wrapped", None):
             return self._wrapped
@@ -640,10 +642,10 @@ class Ctx:
                 raise MachineryError("cannot wrap Map.%s: %d definitions found in the working tree" % (t, len(hits)))
             srcs[hits[0]] = pat.sub("func (mv Map) verifInner%s(" % t, srcs[hits[0]])
             open(hits[0], "w").write(srcs[hits[0]])
-        for n in ("zz_verif_wrap_test.go", "zz_verif_trace_test.go"):
+        for n in ("zz_verif_wrap.go", "zz_verif_trace_test.go"):
             shutil.copy(os.path.join(VERIF, "harness", "repotrace", n + ".txt"), os.path.join(work, n))
         raw = os.path.join(self.scratch, "repo_praw.ndjson")
-        r = run(["timeout", str(timeout_s), "go", "test", "-tags", "verif", "-vet=off", "-count=1", "."], cwd=work,
+        r = run(["timeout", str(timeout_s), "go", "test", "-tags", "verif", "-vet=off", "-count=1", ".", "./j2x", "./x2j-wrapper"], cwd=work,
                 env=dict(GOENV, MXJ_VERIF_PTRACE=raw), stdout=subprocess.PIPE, stderr=subprocess.STDOUT, text=True)
         shutil.rmtree(work, ignore_errors=True)
         if "[build failed]" in r.stdout or "[setup failed]" in r.stdout:
